@@ -48,3 +48,18 @@ chk('C15', 'exploration',
     'Bounded history length (recorder state grows without bound, so no closure); WaveJSON decoder in mc/refmodels/wave.py trusted.',
     'bounded exhaustive history enumeration (prefix tree with snapshot/restore) against a reference log and decoder',
     'DESIGN.md 4/C15')
+chk('C01', 'model_checking',
+    'For every catalogue design (all library blocks over the C07/C08/C09/C14 parameter grids, constants, latches, memories, hand-written-body and transpiled leaves, twin instances sharing a module name, block chains, fan-out) x placement (top, inside one or two structural wrappers): py4hw\'s Verilog is elaborated by the /verif Verilog engine and the product machine (py4hw simulator state x Verilog simulator state) is explored breadth-first from power-up with every input vector per step; all top-level outputs compared at power-up and after every cycle; closure of the product graph per design.',
+    'The Verilog engine (mc/vlog: IEEE 1364-2005 sizing/signedness, two-state, 0 power-up for uninitialised regs) is trusted base with its own self-tests; designs above 8 input bits use a corner alphabet (evidence says so); division/modulo by zero pruned; BidirBuf/multi-clock designs outside the subset.',
+    'explicit-state model checking of the product of two implementations (simulator x interpreter of the emitted RTL)',
+    'DESIGN.md 3, 4/C01')
+chk('C03', 'exploration',
+    'Every Verilog text generated for the C01 catalogue and placements, for pairs of blocks emitted under the same module name, and for an exhaustive naming grid (port/wire/instance/top-level names incl. reserved words and names that collide after prefixing) is parsed and elaborated by the /verif front end applying rules R1-R7; R8 (same module name => same port list) is evaluated across the whole run.',
+    'Front end in mc/vlog is the judge of legality (Verilog-2005); generation that raises is counted as refusal; naming grid bounded to the stated name list and wrapper shape.',
+    'bounded exhaustive program/configuration enumeration with a parser+elaborator as oracle',
+    'DESIGN.md 3, 4/C03')
+chk('C13', 'exploration',
+    'Exhaustive enumeration of stated operand alphabets (every normal exponent pair x sign pairs x boundary mantissa patterns, close-magnitude opposite-sign pairs, integer boundary families, every exponent for float-to-int) through FPAdder_SP, FPMult_SP, FPComparator_SP (plain/absolute), InttoFP_SP, FPtoInt_SP, each compared with exact rational arithmetic under exactly the error bounds and domain of the statement.',
+    'Alphabets, not the 2^64 operand space (evidence exhaustive=false): a defect needing a mantissa pattern outside the alphabet is not seen; Fraction/struct oracle trusted.',
+    'bounded exhaustive enumeration of operand alphabets against exact rational arithmetic',
+    'DESIGN.md 4/C13')
